@@ -156,13 +156,13 @@ def run_layouts(ctx, tmp, rnd):
             n_ok = sum(r["status"] == "ok" for r in recs)
             ctx.log(f"{layout}/{cfg[16:-4]}: design {res.distinct} tables; {len(recs)} of {n_all} enumerated tables ingested ({n_ok} accepted, "
                     f"{len(recs) - n_ok} refused) -> {'all conform' if ok else 'MISMATCH'} ({r2.wall:.1f}s)")
-            if n_ok == 0 or n_ok == len(recs):
-                raise tlc.MachineryError(f"vacuity: {layout}/{cfg} has {n_ok} accepted tables of {len(recs)}")
             if not ok:
                 bad = recs[idx] if idx is not None else None
                 ctx.violation({"check": "layout_conformance", "layout": layout, "status": bad and bad["status"]},
                               f"{layout} ingestion differs from IngestLayouts.tla Canon(table) on {bad}", replay=bad)
-            if not family31:
+            elif n_ok == 0 or n_ok == len(recs):    # (a conforming batch without accepted / refused tables would decide nothing)
+                raise tlc.MachineryError(f"vacuity: {layout}/{cfg} has {n_ok} accepted tables of {len(recs)}")
+            if not family31 and n_ok:
                 ctx.sample(next(r for r in recs if r["status"] == "ok" and len(r["table"]) >= 2))
 
 
